@@ -15,12 +15,14 @@ import Sqroot.Proofs.View
 namespace Sqroot.Props.C16
 open Sqroot.Model Sqroot.Proofs
 
-/-- tie 1 (G6): the explicit `panic(` sites in the source of each version are exactly the known
-ones: the two argument checks, WithSignificant, (v1) IteratorAt, the internal index guards and
-the formatter guard. A new panic site breaks this `rfl`. -/
-theorem panic_sites_as_modelled :
-    Gen.V1.panicSites = Expect.panicSites1 ∧ Gen.V2.panicSites = Expect.panicSites2 ∧
-    Gen.V3.panicSites = Expect.panicSites3 := ⟨rfl, rfl, rfl⟩
+/-- tie 1 (G6): the distinct explicit `panic(` statements in the source of each version are exactly
+the known ones: the two argument checks, WithSignificant, (v1) IteratorAt, the internal index
+guard and the formatter guard. A new kind of panic breaks this `rfl`; moving a guard into a helper
+or delegating to a function that already has it does not (the per-function list `panicSites` is
+kept in the generated files for reference). -/
+theorem panic_statements_as_modelled :
+    Gen.V1.panicStatements = Expect.panicStatements1 ∧ Gen.V2.panicStatements = Expect.panicStatements23 ∧
+    Gen.V3.panicStatements = Expect.panicStatements23 := ⟨rfl, rfl, rfl⟩
 
 /-- root and rational constructors panic iff denominator ≤ 0 or numerator < 0 (in this order) -/
 theorem constructors_panic_iff (num den : Int) :
